@@ -46,6 +46,7 @@ Apply(e) ==
     \/ e.op = "lowerbound"   /\ LowerBound(e.s, e.k, e.f)
     \/ e.op = "iterator"     /\ Iterate(e.s, e.f)
     \/ e.op = "all"          /\ AllOf(e.s)
+    \/ e.op = "allw"         /\ AllW(e.x, e.at, e.kind, e.k, e.v)
     \/ e.op = "next"         /\ IterNext(e.f)
     \/ e.op = "iterall"      /\ IterAll(e.f)
     \/ e.op = "clone"        /\ Clone(e.x, e.t)
@@ -58,6 +59,7 @@ Apply(e) ==
 
 \* name of the first invariant that the step to the primed state violates
 HasItems == {"prefix", "lowerbound", "iterator", "all", "iterall"}
+AllWBad(e) == e.op = "allw" /\ e.items # res'.items
 Bad(e) ==
     CASE e.op = "panic" -> IF e.during \in {"notify", "commitnotify", "chans", "rootwatch"}
                            THEN "C12_NoPanic" ELSE "C11_NoPanic"
@@ -68,6 +70,7 @@ Bad(e) ==
       [] e.op = "get" /\ (e.found # res'.found \/ (e.found /\ e.val # res'.val))
             -> IF IsTree(e.s) /\ e.s.id # head THEN "C11_Persistent_Get" ELSE "C11_Result_Get"
       [] e.op = "len" /\ e.n # res'.n -> "C11_Result_Len"
+      [] AllWBad(e) -> "C11_Result_AllWhileWriting"
       [] e.op \in HasItems /\ e.items # res'.items
             -> IF e.op = "iterall" \/ (IsTree(e.s) /\ e.s.id # head)
                THEN "C11_Persistent_Items" ELSE "C11_Result_Items"
